@@ -295,3 +295,51 @@ Proof.
   split; [vm_compute; reflexivity|]. split; [vm_compute; reflexivity|].
   right. right. right. repeat constructor; eexists; reflexivity.
 Qed.
+
+(* ====================== C. sessions over several column objects ====================== *)
+(* Constant / function column OBJECTS with explicit state (current binding, configuration, value, length, the size
+   written into the declared type name; one counter shared by the stateful binding).  The correspondence runs such
+   sessions on real objects that share their binding FUNCTION objects. *)
+
+(* The size written into a column's type name (VARCHAR[20], BLOB[4]) never matters: every expansion of every session
+   is what it is with the declared sizes forgotten. *)
+Theorem C09_session_declared_size_irrelevant :
+  forall (steps : list sstep) (cols : list scol) (ticks : Z),
+  sess_run (map erase_col cols) ticks (map erase_step steps) = sess_run cols ticks steps.
+Proof. exact sess_run_erase. Qed.
+Print Assumptions C09_session_declared_size_irrelevant.
+
+(* Expanding a column (constant, or function column over a pure binding) answers from that column's CURRENT fields and
+   leaves everything that follows unchanged: later expansions - of it or of any other column - are what they would
+   have been without it, so expanding twice gives the same answer and nothing is remembered. *)
+Theorem C09_session_expansion_has_no_effect :
+  forall (cols : list scol) (ticks : Z) (i : nat) (c : scol) (rest : list sstep),
+  nth_error cols i = Some c -> pure_col c ->
+  sess_run cols ticks (SMat i :: rest) = fst (scol_mat c ticks) :: sess_run cols ticks rest.
+Proof. exact sess_mat_no_effect. Qed.
+Print Assumptions C09_session_expansion_has_no_effect.
+
+(* A pure column's answer does not depend on how often the stateful binding was called. *)
+Theorem C09_session_pure_answer_ignores_counter :
+  forall (c : scol) (t u : Z), pure_col c -> fst (scol_mat c t) = fst (scol_mat c u).
+Proof. exact scol_mat_pure_indep. Qed.
+Print Assumptions C09_session_pure_answer_ignores_counter.
+
+(* Rebinding one column's configuration or length changes that column only. *)
+Theorem C09_session_update_is_local :
+  forall (i j : nat) (f : scol -> scol) (cols : list scol) (c : scol),
+  (i <> j -> nth_error (set_col i f cols) j = nth_error cols j) /\
+  (nth_error cols i = Some c -> nth_error (set_col i f cols) i = Some (f c)).
+Proof. intros i j f cols c. split; [apply set_col_other | apply set_col_same]. Qed.
+Print Assumptions C09_session_update_is_local.
+
+(* non-vacuity: identity over 1, 1.0, True through ONE binding gives an int, a float and a bool array; the counter counts;
+   a declared size 20 next to length 3 expands to 3 elements *)
+Example C09_nonvacuous_session :
+  sess_run [] 0%Z
+    [SNew (mkscol (KFunc (SPure BFirst) [VInt 1]) 2 None); SNew (mkscol (KFunc (SPure BFirst) [VFloat (FFin 1 0)]) 2 (Some 20%N));
+     SMat 0; SMat 1; SSetCfg 0 [VBool true]; SMat 0; SNew (mkscol (KFunc SCounter []) 1 None); SMat 2; SMat 2;
+     SNew (mkscol (KConst (VInt 7)) 3 (Some 20%N)); SMat 3]
+  = [Ok ([VInt 1; VInt 1], DInt); Ok ([VFloat (FFin 1 0); VFloat (FFin 1 0)], DFloat); Ok ([VBool true; VBool true], DBool);
+     Ok ([VInt 0], DInt); Ok ([VInt 1], DInt); Ok ([VInt 7; VInt 7; VInt 7], DInt)].
+Proof. vm_compute. reflexivity. Qed.
